@@ -185,7 +185,7 @@ def produce_corpus(seed, n_xdis, n_stdlib, only_tags=None, outdir=None, workers=
             f.write(_PRODUCER_SCRIPT)
         env = {"PATH": os.environ.get("PATH", ""), "PYTHONHASHSEED": "0", "TZ": "UTC", "LC_ALL": "C.UTF-8",
                "PYTHONDONTWRITEBYTECODE": "1", "PYTHONWARNINGS": "ignore", "HOME": os.environ.get("HOME", "/root")}
-        p = subprocess.Popen([exe, "-B", "-s", "-E", script, spec, resf], env=env,
+        p = subprocess.Popen([exe, "-B", "-s", script, spec, resf], env=env,  # no -E: PYTHONHASHSEED=0 must reach the producer
                              stdout=subprocess.DEVNULL, stderr=subprocess.DEVNULL)
         procs.append((tag, p, resf))
     out = []
